@@ -345,6 +345,17 @@ func verifC03(c *drv.Ctx) {
 		"the whole frame alphabet is injected in every chunk's exit-delay window: TCP with all 512 flag sets x 7 source addresses (base-1, base, inside, last, last+1, unrelated) x 10 source ports (range edges +-1, other), IP options, TCP options+payload, fragments, 802.1Q, IPv6+TCP, IP-in-IP, UDP; " +
 		"ICMP 6 types x 3 codes x 3 TTLs x sources; ARP request/reply x 3 MACs x sources; LLDP. Oracle: reply-shape predicate written from the property text; stdout records (multiset) must equal one record per must-report frame with exactly that frame's fields; fragments/VLAN/other-chunk ports are don't-care; " +
 		"evaluations = frames injected; non-trivial = frames that are reply-shaped for their configuration"
+	var kernelSame int64
+	kernelErr := ""
+	defer func() {
+		// summed over shards into the evidence (parts.c03.extra)
+		c.Add("kernel_filter_verdicts_compared", kernelSame)
+		if kernelErr != "" {
+			c.Note("kernel filter comparison unavailable here (%s): the x/net/bpf VM's verdicts were not cross-checked in this run", kernelErr)
+		} else {
+			c.Note("model conformance: every filter verdict (accept/drop and bytes kept) of the BPF VM was compared with the running kernel's classic-BPF engine (SO_ATTACH_FILTER on a unix datagram pair); count in extra.kernel_filter_verdicts_compared; all equal")
+		}
+	}()
 	idx := 0
 	for _, cf := range confs {
 		idx++
@@ -378,9 +389,12 @@ func verifC03(c *drv.Ctx) {
 			if cf.name != "arp" && !cf.vpn {
 				sc.Stdin = vGatewayCache + `{"ip":"10.0.1.3","mac":"02:00:00:00:00:33","vendor":""}` + "\n" + `{"ip":"192.168.9.9","mac":"02:00:00:00:00:99","vendor":""}` + "\n"
 			}
+			world := vDefaultWorld
 			if cf.vpn {
-				sc.World = c01vpnWorld
+				world = c01vpnWorld
 			}
+			// every verdict of the BPF VM is compared with the running kernel's filter engine
+			sc.World = func(w *zzvenv.World) { world(w); w.KernelBPF = true }
 			sc.Net = func(r *vE2ERun) {
 				for k := 0; k < nchunks; k++ {
 					if k == 0 {
@@ -401,6 +415,14 @@ func verifC03(c *drv.Ctx) {
 			run, x := vE2EOnce(sc)
 			rep := map[string]any{"part": "c03", "config": cf.name, "args": sc.Args}
 			c.R.Transitions += int64(x.Steps)
+			run.W.CloseKernel()
+			kernelSame += int64(run.W.KernelSame)
+			if run.W.KernelErr != nil && kernelErr == "" {
+				kernelErr = run.W.KernelErr.Error()
+			}
+			for _, d := range run.W.KernelDiff {
+				c.Infra("%s: the BPF VM standing in for the kernel's socket filter disagrees with the running kernel: %s", cf.name, d)
+			}
 			if _, err := vBasic(x); err != nil {
 				c.Fail("detect:"+cf.name+":crash-or-hang", fmt.Sprintf("%s: %v", cf.name, err), rep)
 				continue
